@@ -971,11 +971,14 @@ __wrap_pthread_create(pthread_t *th, const pthread_attr_t *attr,
 static Thr *
 find_by_real(pthread_t p)
 {
+	// pthread_t values are reused once a thread has been joined, so an
+	// already joined thread never matches
 	for (int i = 0; i < G.nthr; i++)
-		if (pthread_equal(G.thr[i]->real, p) && !G.thr[i]->daemon)
+		if (pthread_equal(G.thr[i]->real, p) && !G.thr[i]->daemon &&
+		    !G.thr[i]->joined)
 			return G.thr[i];
 	for (int i = 0; i < G.nthr; i++)
-		if (pthread_equal(G.thr[i]->real, p))
+		if (pthread_equal(G.thr[i]->real, p) && !G.thr[i]->joined)
 			return G.thr[i];
 	return NULL;
 }
@@ -995,6 +998,7 @@ __wrap_pthread_join(pthread_t p, void **ret)
 		self->join_target = t->id;
 		sched_block(self);
 	}
+	t->joined = true;
 	return __real_pthread_join(p, ret);
 }
 
